@@ -155,6 +155,17 @@ def parser_grammar(program, body):
             continue
         if "IResult" in (cal.local_ty(0) or "") or "nom::Err" in (cal.local_ty(0) or ""):
             steps.append((blk, ("sub", cal.path), Q.call_args(body, S, blk, t)[0]))
+    # a combinator's result applied directly (`tag(":")(input)?`): a call through the Fn traits of a parser value
+    seen = {blk for blk, _n, _i in steps}
+    for blk, t in body.calls():
+        if blk in seen or not (t.get("decl") or "").endswith(("ops::Fn::call", "ops::FnMut::call_mut", "ops::FnOnce::call_once")) or len(t["args"]) != 2:
+            continue
+        a = Q.call_args(body, S, blk, t)
+        f = T.strip(a[0])
+        while f[0] in ("ref", "deref"):
+            f = T.strip(f[2] if f[0] == "ref" else f[1])
+        if f[0] == "call" and "nom::" in f[1]:
+            steps.append((blk, interp(program, f), a[1]))
     if len(steps) > 1:
         blocks = {blk for blk, _n, _i in steps}
         prev = {}
